@@ -50,6 +50,9 @@ CHECKS = {
  "C20": dict(engine="E1-world", category="exploration", technique="stateful property-based testing with a reference model of the snapshot queue checked after every API call",
    text="Commit-heavy generated histories (warm-up so that two-digit epochs occur, races, rollbacks, restarts) with retention 0..6 on both backends: after every call list_group_snapshots holds at most `retention` entries and exactly the (epoch, commit id) pairs of the client's most recent commits applied through process_message on its current branch; with a 1 s time-to-live a SQLite client restarted 2 s later comes up with no snapshot. Search, not proof.",
    note="The model of the expected queue is the harness's; TTL is exercised with one small value because it needs real sleeps.", ref="DESIGN.md §4 C20"),
+ "C12": dict(engine="E3-crash", category="fault_enumeration", technique="fault injection at every storage tick of generated scenarios (in-process panic and abort() in a child process), differential against an uninterrupted twin on a copy of the database",
+   text="For generated scenarios over every operation class named by the property, every storage tick k of the target call is enumerated: a fresh copy of the victim's database runs the call with the hook armed to die at k (unwinding in-process; in a share of the cases abort() in a child process, leaving hot journals), the file is reopened, must open and load every group, and re-offering the interrupted event plus all later events must end in the exact observable state of an uninterrupted twin (local calls: retry succeeds and records mirror MLS state; raw snapshot / rollback / relay transactions: the full dump equals the pre- or the post-state). Per scenario the enumeration of k is exhaustive; scenarios are sampled.",
+   note="Assumes the tick hook marks every storage step (every with_connection call and every statement boundary of the explicit transactions); power loss / torn pages are out of scope. Crash points strictly between a call's first and last durable write are excused only for the listed non-atomicity findings (O17, O18, O31, O32).", ref="DESIGN.md §4 C12"),
 }
 
 checks = []
@@ -81,6 +84,7 @@ manifest = {
     },
     "engines": [
         {"name": "E2-storemodel", "path": "/verif/harness/src/storemodel.rs", "serves_properties": ["C09", "C10", "C18"], "kind_free_text": "reference model of the storage contract + three-way differential over generated call sequences"},
+        {"name": "E3-crash", "path": "/verif/harness/src/props/c12.rs", "serves_properties": ["C12"], "kind_free_text": "storage-tick fault enumeration with twin differential; in-process unwinding and abort() in a child process"},
         {"name": "E1-world", "path": "/verif/harness/src/world.rs", "serves_properties": ["C01", "C02", "C03", "C04", "C05", "C07", "C08", "C11", "C16", "C18", "C20"], "kind_free_text": "simulated clients + relay + delivery scheduler over the real crates; proptest plans; reference replica"},
     ],
     "checks": checks,
